@@ -3,6 +3,7 @@ CONSTANTS
   NSock = 2
   Tokens = {1, 2, 3, 4, 5}
   MaxTotal = 4
+  Cap = 2
   Variants = {"code"}
 INVARIANT TypeOK
 INVARIANT Conforms
